@@ -237,7 +237,7 @@ Definition resize (c : cfg) (s : shard) (cap : N) (vs : list N) : option shard :
 Definition evict_all (c : cfg) (s : shard) (vs : list N) : option shard :=
   evict_oracle c 0 vs s.
 
-(* RawCache::flush (raw.rs, after repair 517c997): evict(0), then every record that is still resident - those the
+(* RawCache::flush (raw.rs, after repair 92930ee): evict(0), then every record that is still resident - those the
    algorithm does not offer as victims while they are referenced (LRU pins them) and zero-weight ones the loop never
    reaches.  The keys come in the implementation's order; the second phase takes them in hash-table order. *)
 Fixpoint flush_oracle (c : cfg) (vs : list N) (s : shard) : option shard :=
